@@ -16,17 +16,17 @@ CHECKS = {
                 text="TLC checks NoEarlyLaunch on every interleaving of the scheduler model for all DAGs of the dag family; the real "
                      "scheduler is run under the deterministic engine on real task graphs (8 ways of embedding an upstream task), every "
                      "recorded step must be a step of the specification with equal projected state and the action property is evaluated on "
-                     "every recorded step.", note=SCHED_NOTE),
+                     "every recorded step. Embeddings now include a task held by a Meta parameter and an output handed on by a second task; dependents submitted after one of two upstream jobs has finished.", note=SCHED_NOTE),
     "C06": dict(category="model_checking", engine="E1", design="5 (C06), 3.1, 4.1, 4.3",
                 technique="TLA+ XpmScheduler: TLC exhaustive (final-state invariants, deadlock freedom, liveness) + trace validation (E1)",
                 text="TLC explores every interleaving of loop callbacks, helper threads, process exits and main-thread calls for small DAG/token/"
                      "re-submission workloads (invariants TruthfulFinal, FinalAbsorbing, ResultIsFinal, WaitOnlyWhenAllFinal, deadlock = hang); "
                      "thousands of real executions (systematic for tiny workloads, seeded random otherwise) are validated step by step against "
-                     "the specification and every execution must end in the model's GoodEnd.", note=SCHED_NOTE),
+                     "the specification and every execution must end in the model's GoodEnd. The specification also covers experiment.stop() (SIGINT during the wait: Sigint / StopStep / WaitReturnStopped, family stop) and job processes killed from outside (no marker, stale pid file); priority ('starvation') schedules stretch the window of every kind of pending step; a hang of the real scheduler is an outcome, checked by a self-test.", note=SCHED_NOTE),
     "C07": dict(category="model_checking", engine="E1", design="5 (C07), 3.1",
                 technique="TLA+ XpmScheduler: TLC exhaustive over failing subsets + trace validation (E1)",
                 text="All failing subsets of chain/diamond DAGs are explored exhaustively by TLC (dependents cancelled, independents run, exit "
-                     "status); real executions with failing processes are validated against the specification.", note=SCHED_NOTE),
+                     "status); real executions with failing processes are validated against the specification. Killed job processes (no marker) and adopted jobs that die without marker are part of the model and of the plans; leaving the experiment early (counter mismatch) counts for this property; at the end every job whose upstream jobs succeeded must have run.", note=SCHED_NOTE),
     "C08": dict(category="model_checking", engine="E1", design="5 (C08), 3.1, 3.3",
                 technique="TLA+ XpmScheduler (in-process token) and XpmTokenFS (file token, several processes): TLC exhaustive Capacity / MutualExclusion + trace validation of E1 executions and of real multi-process token logs (E2-token)",
                 text="Capacity / conservation invariants checked by TLC for all interleavings with heterogeneous requests; real executions with "
@@ -42,13 +42,13 @@ CHECKS = {
                      "executions whose End event requires the model's terminal predicate (tokens full, nothing waiting). Death of a scheduler "
                      "followed by the job's own end, death in the middle of the token-file creation, partial returns of capacity: scripted on "
                      "real processes; at every quiescent point of the log a waiting job whose request fits must have been told, and the token "
-                     "files of ended jobs must be gone.", note=SCHED_NOTE + " Liveness across processes is checked at scripted quiescent points only."),
+                     "files of ended jobs must be gone. Lost wake-ups inside the window of an aborted start are searched with starvation schedules and 5x more schedules on contention plans; the quiescent-point clauses of XpmTokenFS_Trace (told when it fits, files of ended jobs gone) are evaluated after waiting for events logged after their trigger.", note=SCHED_NOTE + " Liveness across processes is checked at scripted quiescent points only."),
     "C05": dict(category="model_checking", engine="E1+E2", design="5 (C05), 3.1, 3.2",
                 technique="TLA+ XpmScheduler (registry, done markers, restart) + XpmJobDir (competing launches): TLC exhaustive + trace validation of E1 executions and of real-process races (E2)",
                 text="Registry de-duplication, 'never launched again when done' and re-submission are checked by TLC on the scheduler model and on "
                      "real scheduler executions (duplicates at every position, later experiments, removed markers); 'the body never runs twice at "
                      "once / again after success' is checked by TLC on the job-directory model (2-3 competing launches, signals anywhere) and on "
-                     "scripted races of 2-3 real job processes whose histories must be behaviours of the model.",
+                     "scripted races of 2-3 real job processes whose histories must be behaviours of the model. The first launch is preempted before each of its statements while a second launch arrives (every 4th statement quick, every statement thorough): a lock released before the success marker is written is rejected by the model; a second job created for a configuration that succeeded and never failed is reported.",
                 note=SCHED_NOTE + " E2 races are scripted (holder in body, waiter blocked on the lock, third arrival), not exhaustive at instruction level."),
     "C10": dict(category="fault_enumeration", engine="E2", design="5 (C10), 3.2, 4.4",
                 technique="TLA+ XpmJobDir: TLC exhaustive over signal x statement; fault enumeration signal x executed line of the real TaskRunner, histories validated by TLC (silent-step trace spec)",
@@ -56,14 +56,14 @@ CHECKS = {
                      "and SIGINT of a real generated job script (plus failing body, pre-existing .failed/.done, relaunches, competing launches); the "
                      "observed exit status, markers, lock state and body begin/end records of each history must be explained by a behaviour of "
                      "XpmJobDir, whose invariants (DoneOnlyIfBodyCompleted, HandledSignalInBody, NoPidAfterOwnEnd, LockHolderAlive) TLC "
-                     "checks exhaustively.",
+                     "checks exhaustively. Preemption of the job process before its k-th statement with a competing launch; a job started with SIGINT ignored (nohup) that receives a signal in its body must act on it before a deadline; the second failure-marker write of a handled signal is a model step.",
                 note="Trusted: kernel semantics of fcntl locks / signals; line granularity of sys.settrace for the fault position; the harness plays the launcher side (lock, spawn, pid file, unlock)."),
     "C11": dict(category="fault_enumeration", engine="E1", design="5 (C11), 3.1, 4.3",
                 technique="TLA+ XpmScheduler with Die/Restart: TLC exhaustive (restart family) + fault sweep (scheduler death after every k-th event) over real scheduler executions validated by TLC",
                 text="The scheduler model includes SIGKILL of the scheduler at any point and a restart on the same workspace (adoption through "
                      "the pid file, done markers, run lock held by surviving job processes); TLC checks body-exactly-once invariants exhaustively "
                      "and the real scheduler is killed after every k-th recorded event of base schedules (with long-running and short jobs), "
-                     "restarted, and the whole two-run history validated against the specification.",
+                     "restarted, and the whole two-run history validated against the specification. Real-process half (E2-restart): the real experiment process is SIGKILLed before the k-th statement (all threads) of scheduler/base.py, commandline.py, scriptbuilder.py, connectors/local.py with real gated job processes; the same experiment is run again (jobs still running or already ended) and must end with the same successes and every body executed exactly once. Ctrl-C during the wait followed by the same experiment again is part of the model (family stop).",
                 note=SCHED_NOTE + " Scheduler death is injected at loop-callback boundaries of the in-process engine; real-process kills are covered for the job side by C10."),
     "C01": dict(category="model_checking", engine="E3", design="5 (C01), 3.5, 4.2",
                 technique="TLA+ XpmConfig/MC_Config: TLC exhaustive over seal/request/assign/submit histories (IdIsCanonical) + TLC-generated behaviours replayed on real objects with byte-level stream comparison + code->spec stream validation",
@@ -71,7 +71,7 @@ CHECKS = {
                      "(cycles, sharing) x all histories that every identifier request returns the canonical cache-free value; TLC-generated "
                      "behaviours are replayed on real objects (tapped stream = specification stream byte for byte); random graphs are built in "
                      "several processes / PYTHONHASHSEEDs / construction orders, before and after sealing, and compared with the specification "
-                     "and with identifiers pinned at the pinned commit.",
+                     "and with identifiers pinned at the pinned commit. Schema: subclass without its own type identifier, nested containers of configurations, a configuration-valued default (copy untouched / edited in place / replaced: Config.__eq__ is modelled, FixF18), tagged values of another Python type; post-seal streams validated by TLC with the sealed set; submission with pre-/init tasks: the job directory is jobs/<type>/<SHA-256(raw, pre, init)> and no path generated during sealing lies outside it.",
                 note="Trusted: SHA-256; the frozen schema spec/XpmSchema.tla (cross-checked against the live classes at every run); the golden corpus stands for 'earlier releases'."),
     "C02": dict(category="model_checking", engine="E3", design="5 (C02), 3.5",
                 technique="TLA+ XpmConfig: Sig/Enc bijection checked by TLC on bounded families + edit-neighbour pairs of real graphs judged by TLC (equal signature => equal identifier) + schema evolution",
@@ -85,14 +85,14 @@ CHECKS = {
                 text="TLC checks |{Enc}| = |{Sig}| = |{(Sig,Enc)}| over families of nested lists/dicts/strings and of structures (children in "
                      "lists, dicts, meta flags, cycles); thousands of pairs of real graphs one edit apart (element moved between neighbouring "
                      "containers, key renamed, swap, sibling move, enum/constant/class change, pre-task set) are checked: stream = Enc and "
-                     "different signatures never share a SHA-256 identifier; histories with task submission check that the producing task enters the identifier.",
+                     "different signatures never share a SHA-256 identifier; histories with task submission check that the producing task enters the identifier. Producer graphs (a consumer of a configuration produced by a task that has pre-/init tasks): the pre-task set observed must be the specification's PreSet; written, loaded and identified again: a reloaded configuration keeps its identifier (task link included).",
                 note="Domain as stated by the property (no control characters, dicts <= 2 levels); SHA-256 collision resistance trusted."),
     "C14": dict(category="model_checking", engine="E3", design="5 (C14), 3.5",
                 technique="TLA+ MC_Config: SealClosed / SealedFrozen / IdIsCanonical by TLC + replay of TLC behaviours (assignment attempts interleaved with identifier requests) + sealed-set validation by TLC on real graphs",
                 text="TLC checks that sealing is transitive (values, lists, dicts, pre/init tasks, task links) and that sealed nodes never change; "
                      "behaviours with assignment attempts before/after sealing and submission are replayed on real objects (rejections and "
                      "identifiers must match); after sealing real random graphs the set of sealed objects is validated against Reach(); producer/consumer "
-                     "scenarios probe every mutation entry point on every configuration reachable from a submitted task.",
+                     "scenarios probe every mutation entry point on every configuration reachable from a submitted task. Tasks with both pre- and init tasks (their sub-configurations are sealed), containers given to the constructor stay the caller's (changing them after submission changes nothing), add_pretasks_from on sealed configurations.",
                 note="In-place mutation of a stored list object (cfg.l.append) is outside the statement (not an assignment) and not checked."),
     "C17": dict(category="model_checking", engine="E3", design="5 (C17), 3.5",
                 technique="TLA+ XpmConfig GenWalk: TLC checks inside/distinct over the structure family; generated paths of real sealed graphs validated by TLC; dry-run resubmission",
@@ -110,7 +110,7 @@ CHECKS = {
                      "the grain of its file-system operations with a Crash action; TLC checks that a complete repair refines the atomic one from any "
                      "state crashes can leave and makes every job reachable; the real repair is killed before its k-th statement (every k in the "
                      "thorough tier) or a json.dump fails half-way, the tree is observed, repaired again and observed: both trees must be states "
-                     "the specification reaches (a torn params.json is not one).",
+                     "the specification reaches (a torn params.json is not one). A deprecated class whose replacement is itself deprecated; jobs submitted with init tasks; a job whose identifier did not change is left alone (FreshUntouched); job directories that cannot be loaded (parameter removed since) are bystanders the repair must skip.",
                 note="Frozen schema states that K2Old hashes with K2's type identifier; cross-checked against the live classes."),
     "C12": dict(category="model_checking", engine="E3+E2", design="5 (C12), 3.5",
                 technique="TLA+ XpmConfig DefsOrder: TLC invariants (each object once, children first) + definition lists of real graphs validated by TLC + round-trip isomorphism against the abstract graph + echo task runs",
@@ -118,42 +118,42 @@ CHECKS = {
                      "structure family and validates the order produced by the real code for random graphs; every graph is written and loaded "
                      "three ways (and written again after loading) and compared node by node with the abstract graph (classes, every value incl. "
                      "ignored ones, meta flags, sharing, pre/init tasks, task links, identifiers recomputed); real job parameter files are "
-                     "loaded and executed by experimaestro.run in a fresh interpreter and the values and tags seen by the task are compared.",
+                     "loaded and executed by experimaestro.run in a fresh interpreter and the values and tags seen by the task are compared. from_task_dir on a task directory whose parameter file defines other submitted tasks returns that directory's task.",
                 note="The abstract graph of XpmConfig is the reference of the isomorphism; Path-typed data parameters (DataPath serialisation) are not covered."),
     "C13": dict(category="model_checking", engine="E3", design="5 (C13), 3.5",
                 technique="TLA+ XpmConfig InstNodes/InstPre: TLC invariants + instantiated sets of real graphs validated by TLC + call-count/wiring comparison with the abstract graph",
                 text="Which nodes are instantiated and which pre-tasks run is specified (FromPython walk); TLC validates the sets observed on "
                      "random real graphs (sharing, cycles, pre/init tasks at any node); wiring is compared object by object with the abstract "
                      "graph for instance() (also with a shared ObjectStore) and for parameter-file loading (post-init once after parameters, "
-                     "pre-tasks once, init tasks once after the pre-tasks).",
+                     "pre-tasks once, init tasks once after the pre-tasks). Order of execution (init tasks after pre-tasks, in their order), distinct pre-tasks with equal parameters, a post-initialisation that fails once followed by a retry with the same object store.",
                 note="The task body following the init tasks is checked through the echo runs of C12."),
     "C15": dict(category="model_checking", engine="E3", design="5 (C15), 3.6",
                 technique="TLA+ XpmFunctions (types part): TLC enumerates type expressions x candidate values, checks StoredConforms / ConformingKept, and acts as reference evaluator for every assignment on real parameters (B3); submit-fails-fast scenarios",
                 text="Assign(v,t) (coercions and rejections) is transcribed in TLA+; TLC checks on 4653 (type, value) pairs (types to depth 3, values "
                      "conforming or off by one constructor) that what is stored conforms and conforming values are kept; every pair is then "
                      "assigned to a real Param of that type and the raise / stored value / read-back compared. Ten graphs with a required value "
-                     "missing at different depths (also below optional / ignored parameters, in pre-tasks) must be rejected by submit with no job registered.",
+                     "missing at different depths (also below optional / ignored parameters, in pre-tasks) must be rejected by submit with no job registered. Negative and negative-integral floats, parameters with a value checker (coercion happens before the check and is kept), a loaded configuration whose class has gained a required parameter (version skew), required values outside the signature missing inside lists / dicts / nested lists.",
                 note="Optional is only supported at the top level of a parameter type; Union types are outside the property's constructor list. Known finding: None element accepted inside containers of configurations."),
     "C16": dict(category="model_checking", engine="E3+E2", design="5 (C16), 3.4",
                 technique="TLA+ XpmWorkspace: TLC exhaustive (IndexExact, BackupKept, NoPlanJobOrphaned) + TLC-generated histories replayed on a real workspace with the real experiment context manager and CLI; two-process lock race",
                 text="Runs of experiments ending normally / by exception / by kill, interleaved with orphans and jobs clean, are explored by TLC "
                      "(3 jobs, 2 experiments); random behaviours of depth 6 are replayed with the real experiment object (real scheduler thread, "
                      "simulated instant job processes) and the symlink trees, backup directories and the output of `orphans` compared with the "
-                     "specification after every action; two real processes contend for the same experiment.",
+                     "specification after every action; two real processes contend for the same experiment. GENERATE_ONLY runs (touch neither index nor backup), experiment names that are substrings of one another, and a process waiting to enter a running experiment must not destroy the record of the plan the running process completes.",
                 note="Job processes are simulated; the kill of the experiment process is simulated by abandoning the experiment object without running __exit__."),
     "C18": dict(category="model_checking", engine="E3", design="5 (C18), 3.6",
                 technique="TLA+ XpmFunctions (match part): TLC checks MatchSound over requests x hosts and is the reference evaluator for match(), the request algebra, the text grammar and operand purity (B3)",
                 text="Match / And / Mul / union order are transcribed in TLA+; TLC checks Match => Satisfies for 129 request expressions x 240 hosts "
                      "(unsorted GPU lists, min_memory, min_gpu, max_duration) and prints the expected result of every pair; the implementation is "
                      "evaluated on every pair, every combined request is compared with the specification's normal form, operands are "
-                     "snapshotted before/after & and *, and the printed text of each expression (random whitespace) is parsed and compared, twice.",
+                     "snapshotted before/after & and *, and the printed text of each expression (random whitespace) is parsed and compared, twice. Every spelling of a duration the grammar accepts (h, hours, d, days, with or without space).",
                 note="humanfriendly's decimal sizes are trusted; GPU pairing is position-wise as in the code (sound, not complete)."),
     "C19": dict(category="model_checking", engine="E3", design="5 (C19), 3.6, 3.4",
                 technique="TLA+ XpmFunctions (filter part) as enumerated oracle for createFilter + TLA+ XpmWorkspace histories with jobs clean / orphans replayed through the real CLI",
                 text="Filter evaluation (=, in, not in, ~, and/or chains evaluated from the left) is transcribed; TLC enumerates 732 expressions x "
                      "128 tag/state/name assignments and the compiled filters are compared on all of them; `jobs clean` (filter, --experiment, "
                      "--perform, running jobs) and `orphans` (--clean, --ignore-old) are actions of XpmWorkspace whose generated histories are "
-                     "replayed on real workspaces through the click commands, the directory tree being compared after each.",
+                     "replayed on real workspaces through the click commands, the directory tree being compared after each. Regular expressions with escapes; XpmOrphansRace: the listings of `orphans` are not atomic while a new run of the experiment moves the links to the backup index -- TLC shows that index-before-backup is safe and the other order is not; the real command is interleaved with a real experiment start at every step of its listings.",
                 note="String-valued tags; parentheses are not accepted by the filter grammar entry point and are outside the domain."),
 }
 
